@@ -8,6 +8,10 @@ CHECKS = {
    technique="bounded exhaustive enumeration of operation programs on the real database (stateless explicit-state search, stepped background work) against a BTreeMap reference model",
    text="Every operation program up to the stated depth over the stated alphabets (writes, batches, clears, ingestions, memtable rotation, each queued worker message in every order, major compaction, journal rotation) is executed on the real fjall+lsm-tree code from several start states and configurations; after each program every read method over a fixed probe set is compared with a sorted reference map. Exhaustive within the bounds reported in the evidence file; nothing is sampled.",
    note="Bounded: key universe {a,ab,b}, 4 values, depth bounds per pass as reported; background work is executed one message at a time on the caller's thread (real worker_tick), so thread interleavings inside maintenance are out of scope here (C14). lsm-tree is exercised, not modelled."),
+ "C04": dict(level="model_checking", engine="E1-seqcheck", design="§3, §6 C04",
+   technique="bounded exhaustive enumeration of operation programs with close/reopen on the real database against a BTreeMap reference model",
+   text="Every program up to the stated depth mixing writes, batches, transaction commits, clear, bulk ingestion (also over existing keys), rotation, every queued worker message in every order, journal rotation, major compaction and up to three close/reopen cycles is executed on the real code under several configurations and start states; every state reached through a reopen must show exactly the model content through every read method (point reads and scans included) and the same keyspace set.",
+   note="Bounded depth/alphabet as reported in the evidence; clean close only (crash images are C02's). Two signatures of one genuine defect (ingested tombstone + compaction + reopen) are listed in known_findings.txt."),
 }
 
 NOT_YET = {
